@@ -240,18 +240,36 @@ theorem configFileEnv_unset (w : World) (o : PO) (h : o.configs = []) (hf : o.en
     applyOpt w o .withConfigFileEnv = .ok o := by
   simp only [applyOpt, withConfigFileEnv, h, hf]
 
-/-- a `COMPOSE_FILE` entry that does not exist is an error, whatever the other entries are -/
-theorem resolvePaths_missing (w : World) (pre post : List Str) (p : Str) (hp : List.lookup p w.paths = none)
-    (hpre : ∀ q ∈ pre, (List.lookup q w.paths).isSome) :
+/-- a `COMPOSE_FILE` entry that does not exist (and is not `-`) is an error, whatever the other entries are -/
+theorem resolvePaths_missing (w : World) (pre post : List Str) (p : Str) (hp : pathRef w p = none)
+    (hpre : ∀ q ∈ pre, (pathRef w q).isSome) :
     resolvePaths w (pre ++ p :: post) = .error .configNotFound := by
   induction pre with
   | nil => simp [resolvePaths, hp]
   | cons q qs ih =>
     have hq := hpre q List.mem_cons_self
-    cases hl : List.lookup q w.paths with
+    cases hl : pathRef w q with
     | none => rw [hl] at hq; cases hq
     | some r =>
       simp only [List.cons_append, resolvePaths, hl, ih (fun x hx => hpre x (List.mem_cons_of_mem _ hx))]
+
+/-- the entry `-` always resolves (to standard input), without looking at the file system -/
+theorem stdin_path_resolves (w : World) : pathRef w ['-'] = some { dir := 0, file := none, stdin := true } := by
+  simp [pathRef]
+
+/-- `GetWorkingDir` skips `-`: with standard input first, the project directory is decided by the remaining paths -/
+theorem stdin_skipped_for_project_dir (w : World) (o : PO) (c : CfgRef) (cs : List CfgRef) (hs : c.stdin = true)
+    (hc : o.configs = c :: cs) : projDirId w o = projDirId w { o with configs := cs } := by
+  simp [projDirId, hc, firstFileDir, hs]
+
+/-- `ReadConfigFiles` reads a `-` entry from standard input -/
+theorem stdin_is_read (w : World) (c : CfgRef) (cs : List CfgRef) (hs : c.stdin = true) :
+    readConfigs w (c :: cs) =
+      match readConfigs w cs with
+      | .ok r => .ok (w.stdinDocs :: r)
+      | .error e => .error e := by
+  simp only [readConfigs, hs, if_true]
+  cases readConfigs w cs <;> rfl
 
 /-- `COMPOSE_FILE=a:b:c` (entries without the separator) is split back into `a`, `b`, `c` -/
 theorem splitOn_join (c : Char) (parts : List Str) (hne : parts ≠ []) (h : ∀ p ∈ parts, c ∉ p) :
@@ -337,8 +355,9 @@ theorem no_config_no_project (w : World) (o : PO) (h : o.configs = []) : load w 
 /-- without `WithWorkingDirectory` the project directory is the directory of the FIRST config path, so the file
     selection also decides the name fallback and the default `.env` -/
 theorem project_dir_follows_first_config (w : World) (o : PO) (c : CfgRef) (cs : List CfgRef)
-    (hw : o.workDir = none) (hc : o.configs = c :: cs) : projDir w o = (dirNode w c.dir).name := by
-  simp [projDir, projDirId, hw, hc]
+    (hw : o.workDir = none) (hc : o.configs = c :: cs) (hs : c.stdin = false) :
+    projDir w o = (dirNode w c.dir).name := by
+  simp [projDir, projDirId, hw, hc, firstFileDir, hs]
 
 theorem project_dir_is_workdir (w : World) (o : PO) (d : Nat) (hw : o.workDir = some d) :
     projDir w o = (dirNode w d).name := by
